@@ -680,3 +680,53 @@ R.contract(
     ensures={"the_users_function_decides": "result.func is func and result.label == 'only_users'"},
     replayable=False,
 )
+
+
+# ------------------------------------------------------------------------------------------------- get_all_links: every documented link of every response is offered - an invalid one as an error, not silently
+LKS = "schemathesis.specs.openapi.stateful.links:"
+R.exception_classes["InvalidTransition"] = "schemathesis.core.errors:InvalidTransition"
+
+
+def _new_link(it, env):
+    """OpenApiLink(name, status_code, definition, source) (C10 contracts: OpenApiLink.__init__): the parsed link - or InvalidTransition for a definition it rejects."""
+    from pyvc.interp import PyExc
+    from pyvc.values import VObj
+
+    it.ghost["constructed"] = it.ghost.get("constructed", []) + [(env["name"], env["status_code"], env["definition"], env["source"])]
+    if it.path.choose([(False, True), (True, True)], "link-rejected"):
+        exc = it.make_exc(it.resolve_exc_class("InvalidTransition", None), ())
+        it.ghost["rejected"] = it.ghost.get("rejected", []) + [(env["name"], exc)]
+        raise PyExc(exc)
+    return VObj(it.resolve_class("spec:ParsedLink"), {"name": env["name"], "status_code": env["status_code"], "definition": env["definition"], "source": env["source"]})
+
+
+R.contract(LKS + "OpenApiLink", abstract_only=True, args={"name": Opq("Any"), "status_code": Opq("Any"), "definition": Opq("Any"), "source": Opq("Any")}, returns=_new_link,
+           note="C10 contracts (OpenApiLink.__init__): parsed link or InvalidTransition (raised by the stand-in itself, which records it)")
+R.nominal_methods["spec:LinkResolver"] = {"resolve_all": lambda it, obj, a, k: it.ghost.__setitem__("resolved_with", it.ghost.get("resolved_with", []) + [a[1] if len(a) > 1 else None]) or a[0]}
+_LinkDefs = lambda: DictOf(optional={"L1": Opq("LinkDefinition"), "L2": Opq("LinkDefinition")})
+R.spec_funcs["RECURSION_LIMIT"] = lambda it: it.module_get(__import__("pyvc.extract", fromlist=["load_module"]).load_module("schemathesis.specs.openapi.references"), "RECURSION_DEPTH_LIMIT")
+R.contract(
+    LKS + "get_all_links",
+    variant="enumeration",
+    prop="C07",
+    args={"operation": Obj("spec:LinkedOperation", schema=Obj("spec:LinkedSchema", resolver=Obj("spec:LinkResolver"), links_field=Const("links")),
+                           definition=Obj("spec:LinkedDefinition", raw=DictOf(required={"responses": DictOf(optional={"200": DictOf(optional={"links": _LinkDefs(), "description": Const("ok")}),
+                                                                                                                       "default": DictOf(optional={"links": _LinkDefs()})})})))},
+    ghost={"constructed": [], "rejected": [], "resolved_with": []},
+    raises=[],
+    ensures={
+        # every link of every response, under the status code it is documented for, with its own name and definition and THIS operation as the source ...
+        "every_accepted_link_is_offered_with_its_own_status_name_and_definition": "all(any(r[0] == code and is_instance(r[1], 'Ok') and r[1].ok().name == n and r[1].ok().status_code == code and "
+                       "r[1].ok().definition is operation.definition.raw['responses'][code]['links'][n] and r[1].ok().source is operation for r in result) or any(x[0] == n for x in ghost('rejected')) "
+                       "for code in operation.definition.raw['responses'] if 'links' in operation.definition.raw['responses'][code] for n in operation.definition.raw['responses'][code]['links'])",
+        # ... or, when the link definition is rejected, as that error under the same status code
+        "every_link_is_offered_as_a_link_or_as_its_error": "all(any(r[0] == code and is_instance(r[1], 'Ok') and r[1].ok().name == n for r in result) or "
+                       "any(r[0] == code and is_instance(r[1], 'Err') and any(x[0] == n and x[1] is r[1].err() for x in ghost('rejected')) for r in result) "
+                       "for code in operation.definition.raw['responses'] if 'links' in operation.definition.raw['responses'][code] for n in operation.definition.raw['responses'][code]['links'])",
+        "links_are_parsed_from_the_resolved_response_with_a_nesting_budget": "length(ghost('resolved_with')) == length(operation.definition.raw['responses']) and all(level is not None and level < RECURSION_LIMIT() for level in ghost('resolved_with'))",
+        "a_rejected_link_does_not_hide_the_others": "length(result) == sum([length(operation.definition.raw['responses'][code].get('links', {})) for code in operation.definition.raw['responses']]) and "
+                                                    "length([r for r in result if is_instance(r[1], 'Err')]) == length(ghost('rejected'))",
+    },
+    bounded_note="two documented responses with up to 2 links each",
+    replayable=False,
+)
